@@ -496,6 +496,40 @@ impl SqueezeParams {
 /// Verification hooks (`--cfg jxl_oxide_verif`).
 #[cfg(jxl_oxide_verif)]
 pub mod verif {
+    /// Default squeeze parameter list (`Squeeze::set_default_params`) for channels of the given
+    /// sizes, as `(horizontal, in_place, begin_c, num_c)` written into `out`; returns the count.
+    pub fn default_squeeze_params(
+        nb_meta_channels: u32,
+        dims: &[(u32, u32)],
+        out: &mut [(bool, bool, u32, u32)],
+    ) -> usize {
+        let mut info = Vec::with_capacity(dims.len());
+        for &(w, h) in dims {
+            info.push(crate::ModularChannelInfo::new(
+                w,
+                h,
+                crate::ChannelShift::from_shift(0),
+            ));
+        }
+        let channels = crate::ModularChannels {
+            info,
+            nb_meta_channels,
+        };
+        let mut sq = super::Squeeze {
+            num_sq: 0,
+            sp: Vec::new(),
+        };
+        sq.set_default_params(&channels);
+        let mut n = 0;
+        for p in &sq.sp {
+            if n < out.len() {
+                out[n] = (p.horizontal, p.in_place, p.begin_c, p.num_c);
+            }
+            n += 1;
+        }
+        n
+    }
+
     pub use super::palette::verif as palette;
     pub use super::rct::verif as rct;
     pub use super::squeeze::verif as squeeze;
